@@ -597,54 +597,3 @@ Proof.
     destruct (negb a && unknown_type ps (s_types (abs_store (gs e d)))); exact Hrun.
 Qed.
 
-(* ------------------------------------------------------------------ per-operation refinement, composed over histories *)
-(* the write operations whose refinement is PROVED (property names of one upload are the keys of a Python dict: distinct) *)
-Definition refined_write (o : op) : bool :=
-  match o with EntUp _ _ ps _ _ => nodupb (map fst ps) | EntDel _ _ | IsoDel _ => true | _ => false end.
-Definition accepted (oc : outcome) : bool := match oc with OOk _ => true | _ => false end.
-
-Theorem write_op_refines : forall o d r, wf d -> refined_write o = true ->
-  abs (db_after (run_op o d r)) = snd (sstep store_real o (abs d))
-  /\ accepted (oc_of (run_op o d r)) = fst (sstep store_real o (abs d))
-  /\ (fst (sstep store_real o (abs d)) = false -> oc_of (run_op o d r) = OParsing /\ db_after (run_op o d r) = d).
-Proof.
-  intros o d r H Ho. destruct o; simpl in Ho; try discriminate; unfold sstep.
-  - apply nodupb_NoDup in Ho. destruct overwrite.
-    + pose proof (ent_upload_overwrite_refines e name ps autoins d r H Ho) as Hr.
-      destruct (s_ent_upload store_real e name ps autoins true (abs d)) as [s'|]; destruct Hr as [A B]; rewrite A; simpl; repeat split; auto; try discriminate.
-      rewrite B. reflexivity.
-    + pose proof (ent_upload_new_refines e name ps autoins d r H Ho) as Hr.
-      destruct (s_ent_upload store_real e name ps autoins false (abs d)) as [s'|]; destruct Hr as [A B]; rewrite A; simpl; repeat split; auto; try discriminate.
-      rewrite B. reflexivity.
-  - pose proof (ent_delete_refines e name d r H) as Hr.
-    destruct (s_ent_delete e name (abs d)) as [s'|]; destruct Hr as [A B]; rewrite A; simpl; repeat split; auto; try discriminate.
-    rewrite B. reflexivity.
-  - pose proof (iso_delete_refines i d r) as Hr. unfold oc_of, db_after.
-    destruct (s_iso_delete i (abs d)) as [s'|]; destruct Hr as [A B]; rewrite A; simpl; repeat split; auto; try discriminate.
-    rewrite B. reflexivity.
-Qed.
-
-Definition covered (o : op) : bool := refined_write o || is_get o.
-Definition spec_file (s : sdb) (l : list op) : sdb := fold_left (fun s o => snd (sstep store_real o s)) l s.
-(* any history of covered operations on one file, from any well-formed content and any registries: the abstraction of the file is what the
-   dictionary model predicts, step after step (induction over the history; the invariant is carried along by DbInv.run_op_wf) *)
-Theorem history_refines_partial : forall l d r, wf d -> forallb covered l = true ->
-  wf (run_file d r l) /\ abs (run_file d r l) = spec_file (abs d) l.
-Proof.
-  induction l as [|o t IH]; intros d r H Hc; simpl; [split; [exact H | reflexivity]|].
-  simpl in Hc. apply andb_true_iff in Hc. destruct Hc as [Ho Hc].
-  pose proof (run_op_wf o d r H) as Hw. unfold DbInv.db_after in Hw.
-  destruct (run_op o d r) as [[[oc d'] r'] n] eqn:Er. simpl in Hw.
-  assert (Ed : abs d' = snd (sstep store_real o (abs d))).
-  { unfold covered in Ho. apply orb_true_iff in Ho. destruct Ho as [Ho|Ho].
-    - pose proof (write_op_refines o d r H Ho) as (A & _). rewrite Er in A. exact A.
-    - destruct (retrieval_changes_nothing o d r oc d' r' n Ho Er) as [E1 _]. subst d'.
-      destruct o; simpl in Ho; try discriminate; reflexivity. }
-  destruct (IH d' r' Hw Hc) as [W E]. split; [exact W|]. rewrite E, Ed. reflexivity.
-Qed.
-
-Example history_refines_hypotheses_satisfiable :
-  forallb covered [EntUp EMat 30 [(20, [VNum 1; VNum 2]); (21, [VText 5])] true false; EntGet EMat; EntUp EMat 30 [(20, [VNum 3])] false true;
-                   EntDel EMat 30; IsoDel 7; IsoGet (mkC None None None None)] = true
-  /\ wf empty_db.
-Proof. split; [vm_compute; reflexivity | apply empty_db_wf]. Qed.
